@@ -96,7 +96,22 @@ def reactor_dict(reactor, pv):
         d = r.clientbound_packets
         if not isinstance(d, dict) or not all(plain_int(k) for k in d):
             return None
-        return sorted((k, v.__name__) for k, v in d.items())
+        # Where several registered classes carry one id (the known collisions) the class the dict keeps depends
+        # on set iteration order, i.e. on memory addresses, and changes from run to run.  The table records the
+        # alphabetically first claimant instead, after checking that the real winner IS one of the claimants
+        # (the theorem `reactor_dicts` only requires membership); a winner that is no claimant is recorded as is.
+        ctx_ = r.connection.context if hasattr(r, 'connection') else None
+        claim = {}
+        try:
+            for c in reactor.get_clientbound_packets(ctx_):
+                claim.setdefault(c.get_id(ctx_), []).append(c.__name__)
+        except Exception:
+            claim = {}
+        out = []
+        for k, v in d.items():
+            names = sorted(claim.get(k, []))
+            out.append((k, names[0] if len(names) > 1 and v.__name__ in names else v.__name__))
+        return sorted(out)
     except Exception:
         return None
 
